@@ -6,18 +6,9 @@ From RW Require Import Base.Bytes Base.BytesFacts Fmt.Codec Fmt.Frame Wal.Model 
 From Coq Require Import ZifyN ZifyNat ZifyBool.
 Open Scope N_scope.
 
-Lemma seg_create_some si e sw e' : seg_create si e = (Some sw, e') ->
-  sw = new_wseg si /\ lookup (name_of si) (dk_files (e_disk e)) = None.
-Proof.
-  unfold seg_create. destruct (si_base si =? 0); [intros E; inversion E|].
-  destruct (lookup _ _).
-  - destruct (io _ e) as [ok e1]. intros E; inversion E.
-  - destruct (io _ e) as [ok e1]. destruct ok; intros E; inversion E; auto.
-Qed.
-
 Lemma io_files_commit ps e ok e1 : io (ACommit ps) e = (ok, e1) -> dk_files (e_disk e1) = dk_files (e_disk e).
 Proof.
-  destruct (io_cases (ACommit ps) e) as [(e' & E & D & _)|(_ & e' & E & D & _)]; rewrite E; intros K; inversion K; subst; rewrite D; reflexivity.
+  destruct (io_cases (ACommit ps) e eq_refl) as [(e' & E & D & _)|(e' & E & D & _)]; rewrite E; intros K; inversion K; subst; rewrite D; reflexivity.
 Qed.
 
 Lemma mutate_gen_ok_facts defer w t e w' e' dl : mutate_gen defer w t e = (ROk, w', e', dl) ->
@@ -53,14 +44,12 @@ Proof.
   eapply sh_mutate; [|exact Em]. exact Hf.
 Qed.
 
-Lemma rotate_lock o c w e ec w' e' wc' ec' : R o e ec ->
+Lemma rotate_lock X c w e ec w' e' wc' ec' : R X e ec ->
   rotate c w e = (w', e') -> rotate c w ec = (wc', ec') ->
-  (w' = wc' /\ R o e' ec') \/
+  (w' = wc' /\ R X e' ec') \/
   (e_fault e' = None /\ st_rotate w <> None /\ st_closed w = false /\
    ((w' = rot_none w /\ e_disk e' = e_disk e) \/
-    (w' = set_failed (rot_none w) /\
-     exists ps, drel o (e_disk e') (apply_act (e_disk ec) (ACommit ps)) /\
-                pfx ec ec' (apply_act (e_disk ec) (ACommit ps))))).
+    (w' = set_failed (rot_none w) /\ exists ps, post_commit X ec ec' (e_disk e') ps))).
 Proof.
   intros HR. unfold rotate. destruct (st_rotate w) as [istart|] eqn:Er; [|intros E1 E2; inversion E1; inversion E2; subst; left; auto].
   destruct (st_closed w) eqn:Ecl; [intros E1 E2; inversion E1; inversion E2; subst; left; auto|].
@@ -68,13 +57,13 @@ Proof.
   destruct (create_next _ _ _ _) as [[nid segs2] si].
   match goal with |- context [mutate ?w0 ?t (add_m e ?f)] =>
     destruct (mutate w0 t (add_m e f)) as [[r1 w1] e1] eqn:Em; destruct (mutate w0 t (add_m ec f)) as [[rc1 wc1] ec1] eqn:Emc;
-    pose proof (mutate_lock o w0 t (add_m e f) (add_m ec f) _ _ _ _ _ _ (R_add_m o e ec f f HR) Em Emc) as HL end.
+    pose proof (mutate_lock X w0 t (add_m e f) (add_m ec f) _ _ _ _ _ _ (R_add_m X e ec f f HR) Em Emc) as HL end.
   intros E1 E2; inversion E1; inversion E2; subst.
-  destruct HL as [(A & B & C & _)|(A & B & [(C1 & C2)|(C0 & C1 & C2 & C3 & C4 & _)])].
-  - left. auto.
+  destruct HL as [(A & B & C & _)|(A & B & [(C1 & C2)|(C0 & C1 & C2 & C3 & _)])].
+  - left. split; [exact B|]. unfold dels_of in C. cbn [tx_delete] in C. destruct rc1; eapply Rd_nil; exact C.
   - right. split; [exact A|]. split; [discriminate|]. split; [reflexivity|]. left. split; [unfold rot_none; rewrite Ecl; exact C1|exact C2].
   - right. split; [exact A|]. split; [discriminate|]. split; [reflexivity|]. right. split; [unfold rot_none, set_failed; cbn; rewrite Ecl; exact C1|].
-    eexists. split; [exact C3|]. eapply pfx_shift; [apply aext_add_m|exact C4].
+    eexists. eapply post_commit_shift; [apply aext_add_m|reflexivity|exact C3].
 Qed.
 
 (* ------------------------------------------------------------------ *)
@@ -89,17 +78,16 @@ Proof.
   - destruct (create_next _ _ _ _) as [[nid segs2] si]. apply sh_mutate_gen; exact Hf.
 Qed.
 
-Lemma reset_first_lock o c w nbase e ec r w1 e1 dl rc wc1 ec1 dlc : R o e ec ->
+Lemma reset_first_lock X c w nbase e ec r w1 e1 dl rc wc1 ec1 dlc : R X e ec ->
   reset_first c w nbase e = (r, w1, e1, dl) -> reset_first c w nbase ec = (rc, wc1, ec1, dlc) ->
-  (r = rc /\ w1 = wc1 /\ dl = dlc /\ R o e1 ec1 /\
+  (r = rc /\ w1 = wc1 /\ dl = dlc /\ R X e1 ec1 /\
    (rc = ROk -> forall ti, tail_info (st_segs w) = Some ti -> si_base ti <> nbase ->
     dl = [name_of ti] /\ exists si, st_tail w1 = Some (new_wseg si) /\ lookup (name_of si) (dk_files (e_disk e)) = None) /\
    (rc <> ROk -> st_failed wc1 = true \/ (w1 = w /\ e1 = e /\ ec1 = ec))) \/
   (e_fault e1 = None /\ r = RErrIO /\ dl = [] /\
    ((w1 = w /\ e_disk e1 = e_disk e) \/
     (rc = ROk /\ w1 = set_failed w /\
-     exists ps, drel o (e_disk e1) (apply_act (e_disk ec) (ACommit ps)) /\
-                pfx ec ec1 (apply_act (e_disk ec) (ACommit ps)) /\ dk_meta (e_disk ec1) = Some ps /\
+     exists ps, post_commit X ec ec1 (e_disk e1) ps /\ dk_meta (e_disk ec1) = Some ps /\
                 NoDup (map fst (dk_files (e_disk ec1))) /\
                 (forall ti, tail_info (st_segs w) = Some ti -> si_base ti <> nbase -> dlc = [name_of ti])))).
 Proof.
@@ -107,47 +95,47 @@ Proof.
   { intros E1 E2; inversion E1; inversion E2; subst. left.
     split; [reflexivity|]. split; [reflexivity|]. split; [reflexivity|]. split; [exact HR|]. split; [discriminate|auto]. }
   assert (Gen : forall t, mutate_gen true w t e = (r, w1, e1, dl) -> mutate_gen true w t ec = (rc, wc1, ec1, dlc) ->
-    (r = rc /\ w1 = wc1 /\ dl = dlc /\ R o e1 ec1 /\
+    (r = rc /\ w1 = wc1 /\ dl = dlc /\ R X e1 ec1 /\
      (rc = ROk ->
       (st_tail w1 = tx_tail t /\ tx_create t = None \/ exists si, st_tail w1 = Some (new_wseg si) /\ lookup (name_of si) (dk_files (e_disk e)) = None) /\
       dl = tx_delete t) /\ (rc <> ROk -> st_failed wc1 = true)) \/
     (e_fault e1 = None /\ r = RErrIO /\ dl = [] /\
      ((w1 = w /\ e_disk e1 = e_disk e) \/
       (rc = ROk /\ w1 = set_failed w /\
-       exists ps, drel o (e_disk e1) (apply_act (e_disk ec) (ACommit ps)) /\
-                  pfx ec ec1 (apply_act (e_disk ec) (ACommit ps)) /\ dk_meta (e_disk ec1) = Some ps /\
+       exists ps, post_commit X ec ec1 (e_disk e1) ps /\ dk_meta (e_disk ec1) = Some ps /\
                   NoDup (map fst (dk_files (e_disk ec1))) /\ dlc = tx_delete t)))).
-  { intros t E1 E2. destruct (mutate_gen_lock o true w t e ec _ _ _ _ _ _ _ _ HR E1 E2) as [(A & B & C & D & _ & F)|(A & B & C & [D|(D0 & D1 & D2 & D3 & D4 & D5 & _ & D7)])].
-    - left. split; [exact A|]. split; [exact B|]. split; [exact C|]. split; [exact D|]. split; [|exact F]. intros Hr. subst rc r.
+  { intros t E1 E2. destruct (mutate_gen_lock X true w t e ec _ _ _ _ _ _ _ _ HR E1 E2) as [(A & B & C & D & F)|(A & B & C & [D|(D0 & D1 & D2 & D3 & D5 & _ & D7)])].
+    - left. split; [exact A|]. split; [exact B|]. split; [exact C|].
+      split; [apply (Rd_nil X ec); unfold dels_of in D; destruct rc; exact D|]. split; [|exact F]. intros Hr. subst rc r.
       destruct (mutate_gen_ok_facts _ _ _ _ _ _ _ E1) as (F1 & F2 & F3 & _). split; [|exact F3].
       destruct (tx_create t) as [si|]; [right; exists si; split; [exact F1|apply F2; reflexivity]|left; auto].
     - right. auto.
     - right. split; [exact A|]. split; [exact B|]. split; [exact C|]. right. split; [exact D0|]. split; [exact D1|].
-      eexists. split; [exact D3|]. split; [exact D4|]. split; [exact D5|]. split; [exact D7|]. subst rc.
+      eexists. split; [exact D3|]. split; [exact D5|]. split; [exact D7|]. subst rc.
       destruct (mutate_gen_ok_facts _ _ _ _ _ _ _ E2) as (_ & _ & F3 & _). exact F3. }
   destruct (tail_info _) as [t|] eqn:Eti.
   - destruct (si_base t =? nbase) eqn:Eb.
-    + intros E1 E2. destruct (Gen _ E1 E2) as [(A & B & C & D & E & F)|(A & B & C & [D|(D0 & D1 & ps & D2 & D3 & D4 & D6 & D5)])].
+    + intros E1 E2. destruct (Gen _ E1 E2) as [(A & B & C & D & E & F)|(A & B & C & [D|(D0 & D1 & ps & D2 & D4 & D6 & D5)])].
       * left. split; [exact A|]. split; [exact B|]. split; [exact C|]. split; [exact D|]. split; [|intros K; left; apply F; exact K].
         intros Hr ti K Hne. injection K as <-. lia.
       * right. auto.
       * right. split; [exact A|]. split; [exact B|]. split; [exact C|]. right. split; [exact D0|]. split; [exact D1|].
-        exists ps. split; [exact D2|]. split; [exact D3|]. split; [exact D4|]. split; [exact D6|]. intros ti K Hne. injection K as <-. lia.
+        exists ps. split; [exact D2|]. split; [exact D4|]. split; [exact D6|]. intros ti K Hne. injection K as <-. lia.
     + destruct (create_next _ _ _ _) as [[nid segs2] si].
-      intros E1 E2. destruct (Gen _ E1 E2) as [(A & B & C & D & E & F)|(A & B & C & [D|(D0 & D1 & ps & D2 & D3 & D4 & D6 & D5)])].
+      intros E1 E2. destruct (Gen _ E1 E2) as [(A & B & C & D & E & F)|(A & B & C & [D|(D0 & D1 & ps & D2 & D4 & D6 & D5)])].
       * left. split; [exact A|]. split; [exact B|]. split; [exact C|]. split; [exact D|]. split; [|intros K; left; apply F; exact K].
         intros Hr ti K Hne. injection K as <-.
         destruct (E Hr) as ([(_ & E1')|E1'] & E2'); cbn in *; [discriminate|]. split; [exact E2'|exact E1'].
       * right. auto.
       * right. split; [exact A|]. split; [exact B|]. split; [exact C|]. right. split; [exact D0|]. split; [exact D1|].
-        exists ps. split; [exact D2|]. split; [exact D3|]. split; [exact D4|]. split; [exact D6|]. intros ti K Hne. injection K as <-. exact D5.
+        exists ps. split; [exact D2|]. split; [exact D4|]. split; [exact D6|]. intros ti K Hne. injection K as <-. exact D5.
   - destruct (create_next _ _ _ _) as [[nid segs2] si].
-    intros E1 E2. destruct (Gen _ E1 E2) as [(A & B & C & D & E & F)|(A & B & C & [D|(D0 & D1 & ps & D2 & D3 & D4 & D6 & D5)])].
+    intros E1 E2. destruct (Gen _ E1 E2) as [(A & B & C & D & E & F)|(A & B & C & [D|(D0 & D1 & ps & D2 & D4 & D6 & D5)])].
     + left. split; [exact A|]. split; [exact B|]. split; [exact C|]. split; [exact D|]. split; [|intros K; left; apply F; exact K].
       intros Hr ti K; discriminate.
     + right. auto.
     + right. split; [exact A|]. split; [exact B|]. split; [exact C|]. right. split; [exact D0|]. split; [exact D1|].
-      exists ps. split; [exact D2|]. split; [exact D3|]. split; [exact D4|]. split; [exact D6|]. intros ti K; discriminate.
+      exists ps. split; [exact D2|]. split; [exact D4|]. split; [exact D6|]. intros ti K; discriminate.
 Qed.
 
 (* ------------------------------------------------------------------ *)
@@ -164,27 +152,27 @@ Qed.
 Definition app_facts (tw : wseg) (ls : list log) : Prop :=
   exists l0 lr, ls = l0 :: lr /\ l_index l0 = ws_base tw + ws_n tw /\ ws_index_start tw = 0.
 
-Lemma store_go_lock o last ls w e ec r w' e' rc wc' ec' : R o e ec ->
-  (forall tw, st_tail w = Some tw -> o = Some (ws_name tw) -> wguard (e_disk e) (ws_name tw) (ws_off tw)) ->
+Lemma store_go_lock X last ls w e ec r w' e' rc wc' ec' : R X e ec ->
+  (forall tw, st_tail w = Some tw -> In (ws_name tw) X -> wguard (e_disk e) (ws_name tw) (ws_off tw)) ->
   store_go last ls w e = (r, w', e') -> store_go last ls w ec = (rc, wc', ec') ->
-  (r = rc /\ w' = wc' /\ R o e' ec' /\
-   (rc = ROk -> ls <> [] -> forall tw, st_tail w = Some tw -> R (clr o (ws_name tw)) e' ec') /\
+  (r = rc /\ w' = wc' /\ R X e' ec' /\
+   (rc = ROk -> ls <> [] -> forall tw, st_tail w = Some tw -> R (rem (ws_name tw) X) e' ec') /\
    (rc <> ROk -> e' = e /\ ec' = ec /\ w' = w)) \/
   (rc = ROk /\ ls <> [] /\ r = RErrIO /\ w' = w /\ e_fault e' = None /\
    exists tw, st_tail w = Some tw /\ app_facts tw ls /\
      (e_disk e' = e_disk e \/
-      (drel (clr o (ws_name tw)) (e_disk e') (apply_act (e_disk ec) (append_act tw ls)) /\
+      (drel (rem (ws_name tw) X) (e_disk e') (apply_act (e_disk ec) (append_act tw ls)) /\
        pfx ec ec' (apply_act (e_disk ec) (append_act tw ls))))).
 Proof.
   intros HR Hg. unfold store_go. destruct (check_logs last ls) as [res nbytes].
   destruct res; [|intros E1 E2; inversion E1; inversion E2; subst; left; split; [reflexivity|]; split; [reflexivity|]; split; [exact HR|]; split; [discriminate|auto] ..].
   destruct (st_tail w) as [tw|] eqn:Et; [|intros E1 E2; inversion E1; inversion E2; subst; left; split; [reflexivity|]; split; [reflexivity|]; split; [exact HR|]; split; [discriminate|auto]].
   destruct (seg_append tw ls e) as [[r1 tw1] e1] eqn:Ea. destruct (seg_append tw ls ec) as [[rc1 twc1] ec1] eqn:Eac.
-  destruct (seg_append_lock o tw ls e ec _ _ _ _ _ _ HR (Hg tw eq_refl) Ea Eac)
+  destruct (seg_append_lock X tw ls e ec _ _ _ _ _ _ HR (Hg tw eq_refl) Ea Eac)
     as (A1 & A2 & [(-> & -> & B3 & B4 & B5)|(-> & B0 & -> & -> & B3 & Bf & B4)]).
   - destruct rc1; intros E1 E2; inversion E1; inversion E2; subst; left;
       try (split; [reflexivity|]; split; [reflexivity|]; split; [exact B3|]; split; [discriminate|];
-           intros _; destruct B5 as (X & Y & _); [discriminate|]; subst; auto).
+           intros _; destruct B5 as (X0 & Y & _); [discriminate|]; subst; auto).
     split; [reflexivity|]. split; [reflexivity|]. split; [apply R_add_m; exact B3|].
     split; [|congruence]. intros _ Hne tw' K. inversion K; subst. apply R_add_m. apply B4; auto.
   - intros E1 E2; inversion E1; inversion E2; subst. right.
@@ -219,7 +207,7 @@ Qed.
 Lemma write_sync_keys d a : (match a with AWrite _ _ _ _ | ASync _ => True | _ => False end) ->
   map fst (dk_files (apply_act d a)) = map fst (dk_files d) /\ dk_meta (apply_act d a) = dk_meta d.
 Proof.
-  destruct a as [n sz|n off l b|n|n|ps|k v| |a']; intros H; try destruct H; cbn [apply_act];
+  destruct a as [n sz|n off l b|n|n|ps|k v| | |a']; intros H; try destruct H; cbn [apply_act];
     (destruct (lookup n (dk_files d)) as [f|] eqn:E; [|auto]); cbn [dk_files dk_meta];
     (split; [eapply update_keys_same; eauto|reflexivity]).
 Qed.
@@ -246,78 +234,63 @@ Proof.
 Qed.
 
 (* what the real run of a failed StoreLogs leaves behind *)
-Definition store_failed (o : option fname) (c : cfg) (w : wal) (ls : list log) (e ec : env)
+Definition store_failed (X : list fname) (c : cfg) (w : wal) (ls : list log) (e ec : env)
   (w' : wal) (e' : env) (rc : result) (ec' : env) : Prop :=
   (w' = w /\ e_disk e' = e_disk e) \/
   (w' = set_failed w /\
-   exists ps, drel o (e_disk e') (apply_act (e_disk ec) (ACommit ps)) /\ pfx ec ec' (apply_act (e_disk ec) (ACommit ps)) /\
-              dk_meta (e_disk ec') = Some ps /\ (forall n, o = Some n -> lookup n (dk_files (e_disk ec')) = None)) \/
+   exists ps ti, post_commit X ec ec' (e_disk e') ps /\ dk_meta (e_disk ec') = Some ps /\
+                 tail_info (st_segs w) = Some ti /\ lookup (name_of ti) (dk_files (e_disk ec')) = None) \/
   (w' = w /\ rc = ROk /\ ls <> [] /\
    exists tw, st_tail w = Some tw /\ app_facts tw ls /\
-     drel (clr o (ws_name tw)) (e_disk e') (apply_act (e_disk ec) (append_act tw ls)) /\
+     drel (rem (ws_name tw) X) (e_disk e') (apply_act (e_disk ec) (append_act tw ls)) /\
      pfx ec ec' (apply_act (e_disk ec) (append_act tw ls))) \/
-  (exists l0 ls' w1 ec1 dels tw1 dm,
-     ls = l0 :: ls' /\ reset_first c w (l_index l0) ec = (ROk, w1, ec1, dels) /\ w' = w1 /\ st_tail w1 = Some tw1 /\
-     (exists ti, tail_info (st_segs w) = Some ti /\ dels = [name_of ti] /\ st_closed w = false /\ st_failed w = false /\
-                 (last_index (st_segs w) (st_tail w) =? 0) && negb (l_index l0 =? si_base ti) = true) /\
+  (exists l0 ls' w1 ec1 tw1 dm ti,
+     ls = l0 :: ls' /\ reset_first c w (l_index l0) ec = (ROk, w1, ec1, [name_of ti]) /\ w' = w1 /\ st_tail w1 = Some tw1 /\
+     tail_info (st_segs w) = Some ti /\ st_closed w = false /\ st_failed w = false /\
+     (last_index (st_segs w) (st_tail w) =? 0) && negb (l_index l0 =? si_base ti) = true /\
      app_facts tw1 ls /\
      rc = ROk /\ (dm = e_disk ec1 \/ dm = apply_act (e_disk ec1) (append_act tw1 ls)) /\
-     pfx ec ec' dm /\ drel None (e_disk e') (del_disk dels dm)).
+     pfx ec ec' dm /\ pfx ec ec' (e_disk ec1) /\ lookup (ws_name tw1) (dk_files (e_disk e)) = None /\
+     (* the old tail was deleted, or (deletions fail) it stays *)
+     (drel (rem (name_of ti) X) (e_disk e') (del_disk [name_of ti] dm) \/ drel X (e_disk e') dm)).
 
-Definition stale_tail (o : option fname) (w : wal) (d : disk) : Prop :=
-  forall n, o = Some n ->
-    lookup n (dk_files d) <> None /\
-    exists ti tw, tail_info (st_segs w) = Some ti /\ st_tail w = Some tw /\ ws_name tw = n /\ name_of ti = n /\
-                  wguard d n (ws_off tw).
-
-Lemma del_disk_drel o ns : forall d dc, drel o d dc -> drel o (del_disk ns d) (del_disk ns dc).
+Lemma del_disk_drel X ns : forall d dc, drel X d dc -> drel X (del_disk ns d) (del_disk ns dc).
 Proof.
   induction ns as [|n ns IH]; intros d dc H; [exact H|].
   unfold del_disk. cbn [fold_left]. apply IH. apply drel_act_simple; [exact I|exact H].
 Qed.
-Lemma del_disk_drel_stale n ns : forall d dc, drel (Some n) d dc -> In n ns -> drel None (del_disk ns d) (del_disk ns dc).
-Proof.
-  induction ns as [|m ns IH]; intros d dc H Hin; [destruct Hin|].
-  unfold del_disk. cbn [fold_left]. destruct Hin as [->|Hin].
-  - apply del_disk_drel. apply drel_delete_stale. exact H.
-  - apply IH; [|exact Hin]. apply drel_act_simple; [exact I|exact H].
-Qed.
 
-Lemma delete_files_real ns : forall e,
-  e_disk (delete_files ns e) = del_disk ns (e_disk e) /\ e_fault (delete_files ns e) = e_fault e.
-Proof.
-  induction ns as [|n ns IH]; intros e; [split; reflexivity|].
-  unfold delete_files, del_disk. cbn [fold_left]. fold (delete_files ns (snd (io (ADelete n) e))).
-  fold (del_disk ns (apply_act (e_disk e) (ADelete n))).
-  destruct (IH (snd (io (ADelete n) e))) as (A & B). rewrite A, B. unfold io. cbn [is_delete snd e_disk e_fault]. auto.
-Qed.
-
-Lemma store_logs_lock o c w ls e ec r w' e' rc wc' ec' : R o e ec -> stale_tail o w (e_disk e) ->
+Lemma store_logs_lock X c w ls e ec r w' e' rc wc' ec' : R X e ec ->
+  (forall tw, st_tail w = Some tw -> In (ws_name tw) X -> wguard (e_disk e) (ws_name tw) (ws_off tw)) ->
+  (forall n, In n X -> lookup n (dk_files (e_disk e)) <> None) ->
   store_logs c w ls e = (r, w', e') -> store_logs c w ls ec = (rc, wc', ec') ->
-  (r = rc /\ w' = wc' /\ R o e' ec' /\
-   ((w' = w /\ e' = e /\ ec' = ec) \/ R None e' ec' \/ st_failed wc' = true)) \/
-  (e_fault e' = None /\ r = RErrIO /\ store_failed o c w ls e ec w' e' rc ec').
+  (r = rc /\ w' = wc' /\
+   ((w' = w /\ e' = e /\ ec' = ec) \/ st_failed wc' = true \/
+    (exists tw, st_tail w = Some tw /\ rc = ROk /\ R (rem (ws_name tw) X) e' ec') \/
+    (exists ti, tail_info (st_segs w) = Some ti /\ Rd X [name_of ti] ec e' ec'))) \/
+  (e_fault e' = None /\ r = RErrIO /\ store_failed X c w ls e ec w' e' rc ec').
 Proof.
-  intros HR Hst. rewrite !store_logs_unfold.
+  intros HR Hg Hex. rewrite !store_logs_unfold.
   assert (Hsame : forall r0, (r0, w, e) = (r, w', e') -> (r0, w, ec) = (rc, wc', ec') ->
-    (r = rc /\ w' = wc' /\ R o e' ec' /\ ((w' = w /\ e' = e /\ ec' = ec) \/ R None e' ec' \/ st_failed wc' = true)) \/
-    (e_fault e' = None /\ r = RErrIO /\ store_failed o c w ls e ec w' e' rc ec')).
+    (r = rc /\ w' = wc' /\
+     ((w' = w /\ e' = e /\ ec' = ec) \/ st_failed wc' = true \/
+      (exists tw, st_tail w = Some tw /\ rc = ROk /\ R (rem (ws_name tw) X) e' ec') \/
+      (exists ti, tail_info (st_segs w) = Some ti /\ Rd X [name_of ti] ec e' ec'))) \/
+    (e_fault e' = None /\ r = RErrIO /\ store_failed X c w ls e ec w' e' rc ec')).
   { intros r0 E1 E2; inversion E1; inversion E2; subst. left. auto 10. }
   destruct (st_closed w) eqn:Ecl; [apply Hsame|].
   destruct ls as [|l0 ls']; [apply Hsame|].
   set (ls := l0 :: ls') in *.
   destruct (st_failed w) eqn:Efl; [apply Hsame|]. cbv zeta.
   destruct (tail_info _) as [ti|] eqn:Eti; [|apply Hsame].
-  assert (Hg : forall tw, st_tail w = Some tw -> o = Some (ws_name tw) -> wguard (e_disk e) (ws_name tw) (ws_off tw)).
-  { intros tw Ht Ho. destruct (Hst _ Ho) as (_ & ti' & tw' & _ & Ht' & _ & _ & G). rewrite Ht in Ht'. inversion Ht'; subst. exact G. }
   destruct (_ && _) eqn:Ereset.
-  2:{ intros E1 E2. destruct (store_go_lock o _ ls w e ec _ _ _ _ _ _ HR Hg E1 E2) as [(A & B & C & D & D')|(A & B & C & D & E & tw & Et & Ef & F)].
-      - left. split; [exact A|]. split; [exact B|]. split; [exact C|].
-        destruct rc; try (left; destruct D' as (X & Y & Z); [discriminate|auto]).
-        right. left. assert (Hne : ls <> []) by discriminate.
-        destruct o as [n|]; [|destruct (st_tail w) as [tw|] eqn:Et; [specialize (D eq_refl Hne tw eq_refl); exact D|exact C]].
-        destruct (Hst n eq_refl) as (_ & ti' & tw & _ & Et & En & _). specialize (D eq_refl Hne tw Et). rewrite En in D.
-        unfold clr in D. rewrite fname_eqb_refl in D. exact D.
+  2:{ intros E1 E2. destruct (store_go_lock X _ ls w e ec _ _ _ _ _ _ HR Hg E1 E2) as [(A & B & C & D & D')|(A & B & C & D & E & tw & Et & Ef & F)].
+      - left. split; [exact A|]. split; [exact B|].
+        destruct rc; try (left; destruct D' as (X0 & Y & Z); [discriminate|auto]).
+        assert (Hne : ls <> []) by discriminate.
+        destruct (st_tail w) as [tw|] eqn:Et.
+        + right. right. left. exists tw. split; [reflexivity|]. split; [reflexivity|]. apply (D eq_refl Hne tw eq_refl).
+        + exfalso. unfold store_go in E2. rewrite Et in E2. destruct (check_logs _ ls) as [[] ?]; inversion E2.
       - right. split; [exact E|]. split; [exact C|]. destruct F as [F|(F1 & F2)].
         + left. auto.
         + right. right. left. split; [exact D|]. split; [exact A|]. split; [exact B|]. exists tw. auto. }
@@ -325,64 +298,62 @@ Proof.
   destruct (reset_first c w (l_index l0) ec) as [[[rc1 wc1] ec1] delsc] eqn:Erc.
   assert (Hbase : si_base ti <> l_index l0) by lia.
   pose proof (sh_reset_first _ _ _ _ _ _ _ _ (proj2 HR) Erc) as Hsh1.
-  assert (Hdel : forall n, o = Some n -> In n [name_of ti]).
-  { intros n Ho. destruct (Hst n Ho) as (_ & ti' & tw' & Eti' & _ & _ & En & _). rewrite Eti in Eti'. inversion Eti'; subst. left; reflexivity. }
-  destruct (reset_first_lock o c w (l_index l0) e ec _ _ _ _ _ _ _ _ HR Er Erc)
-    as [(-> & -> & -> & B & C & C')|(A & -> & -> & [(-> & C)|(-> & -> & ps & C1 & C2 & C3 & C5 & C4)])].
-  - destruct rc1; try (intros E1 E2; inversion E1; inversion E2; subst; left; split; [reflexivity|]; split; [reflexivity|]; split; [exact B|];
-                       destruct C' as [X|(X & Y & Z)]; [discriminate|right; right; exact X|left; auto]).
+  destruct (reset_first_lock X c w (l_index l0) e ec _ _ _ _ _ _ _ _ HR Er Erc)
+    as [(-> & -> & -> & B & C & C')|(A & -> & -> & [(-> & C)|(-> & -> & ps & C1 & C3 & C5 & C4)])].
+  - destruct rc1; try (intros E1 E2; inversion E1; inversion E2; subst; left; split; [reflexivity|]; split; [reflexivity|];
+                       destruct C' as [X0|(X0 & Y & Z)]; [discriminate|right; left; exact X0|left; auto]).
     destruct (C eq_refl ti Eti Hbase) as (-> & si & Ctail & Hl).
     destruct (store_go _ ls wc1 e1) as [[r2 w2] e2] eqn:Eg. destruct (store_go _ ls wc1 ec1) as [[rc2 wc2] ec2] eqn:Egc.
-    assert (Hg1 : forall tw, st_tail wc1 = Some tw -> o = Some (ws_name tw) -> wguard (e_disk e1) (ws_name tw) (ws_off tw)).
-    { intros tw Ht Ho. exfalso. destruct (Hst _ Ho) as (Hex & _).
-      rewrite Ctail in Ht. inversion Ht; subst tw. cbn [new_wseg ws_name] in Hex. apply Hex. exact Hl. }
+    assert (Hg1 : forall tw, st_tail wc1 = Some tw -> In (ws_name tw) X -> wguard (e_disk e1) (ws_name tw) (ws_off tw)).
+    { intros tw Ht Ho. exfalso. rewrite Ctail in Ht. inversion Ht; subst tw. cbn [new_wseg ws_name] in Ho. apply (Hex _ Ho). exact Hl. }
     pose proof (sh_store_go _ _ _ _ _ _ _ (proj2 Hsh1) Egc) as Hsh2.
-    destruct (store_go_lock o _ ls wc1 e1 ec1 _ _ _ _ _ _ B Hg1 Eg Egc) as [(-> & -> & G3 & G4 & _)|(-> & G0 & -> & -> & G3 & tw & Et & Gf & G4)].
+    destruct (store_go_lock X _ ls wc1 e1 ec1 _ _ _ _ _ _ B Hg1 Eg Egc) as [(-> & -> & G3 & G4 & _)|(-> & G0 & -> & -> & G3 & tw & Et & Gf & G4)].
     + remember (delete_files [name_of ti] e2) as e3 eqn:He3. remember (delete_files [name_of ti] ec2) as ec3 eqn:Hec3.
       intros E1 E2; injection E1 as <- <- <-; injection E2 as <- <- <-. subst e3 ec3. left.
-      destruct (delete_files_lock o [name_of ti] e2 ec2 G3) as (D1 & _ & _ & _ & _ & D6).
-      split; [reflexivity|]. split; [reflexivity|]. split; [exact D1|]. right. left.
-      destruct o as [n|]; [apply (D6 n eq_refl (Hdel n eq_refl))|exact D1].
+      split; [reflexivity|]. split; [reflexivity|]. right. right. right. exists ti. split; [reflexivity|].
+      apply (delete_files_Rd X [name_of ti] e2 ec2 ec G3). eapply aext_trans; [apply Hsh1|apply Hsh2].
     + remember (delete_files [name_of ti] e2) as e3 eqn:He3. remember (delete_files [name_of ti] ec2) as ec3 eqn:Hec3.
       intros E1 E2; injection E1 as <- <- <-; injection E2 as <- <- <-. subst e3 ec3. right.
-      destruct (delete_files_real [name_of ti] e2) as (D4 & D3).
+      destruct (delete_files_real [name_of ti] e2) as (D3 & _ & D4).
       split; [rewrite D3; exact G3|]. split; [reflexivity|]. right. right. right.
       pose proof (proj1 (sh_delete_files [name_of ti] ec2 (proj2 Hsh2))) as D2'.
       destruct G4 as [G4|(G4 & G5)].
-      * exists l0, ls', wc1, ec1, [name_of ti], tw, (e_disk ec1).
-        split; [reflexivity|]. split; [exact Erc|]. split; [reflexivity|]. split; [exact Et|].
-        split; [exists ti; auto|]. split; [exact Gf|]. split; [reflexivity|].
+      * exists l0, ls', wc1, ec1, tw, (e_disk ec1), ti.
+        split; [reflexivity|]. split; [exact Erc|]. split; [reflexivity|]. split; [exact Et|]. split; [exact Eti|].
+        split; [exact Ecl|]. split; [exact Efl|]. split; [exact Ereset|]. split; [exact Gf|]. split; [reflexivity|].
         split; [left; reflexivity|].
         split; [eapply pfx_more; [apply pfx_end; apply Hsh1|eapply aext_trans; [apply Hsh2|exact D2']]|].
-        rewrite D4, G4. destruct o as [n|].
-        -- apply (del_disk_drel_stale n); [apply B|apply Hdel; reflexivity].
-        -- apply del_disk_drel. apply B.
-      * exists l0, ls', wc1, ec1, [name_of ti], tw, (apply_act (e_disk ec1) (append_act tw ls)).
-        split; [reflexivity|]. split; [exact Erc|]. split; [reflexivity|]. split; [exact Et|].
-        split; [exists ti; auto|]. split; [exact Gf|]. split; [reflexivity|].
+        split; [eapply pfx_more; [apply pfx_end; apply Hsh1|eapply aext_trans; [apply Hsh2|exact D2']]|].
+        split; [rewrite Ctail in Et; inversion Et; subst tw; exact Hl|].
+        rewrite D4, G4. destruct (del_fails e2).
+        -- right. apply B.
+        -- left. unfold del_disk. cbn [fold_left]. apply drel_delete_stale. apply B.
+      * exists l0, ls', wc1, ec1, tw, (apply_act (e_disk ec1) (append_act tw ls)), ti.
+        split; [reflexivity|]. split; [exact Erc|]. split; [reflexivity|]. split; [exact Et|]. split; [exact Eti|].
+        split; [exact Ecl|]. split; [exact Efl|]. split; [exact Ereset|]. split; [exact Gf|]. split; [reflexivity|].
         split; [right; reflexivity|].
         split; [eapply pfx_shift; [apply Hsh1|]; eapply pfx_more; [exact G5|exact D2']|].
-        rewrite D4. destruct o as [n|].
-        -- apply (del_disk_drel_stale n); [|apply Hdel; reflexivity].
-           assert (Hcl : clr (Some n) (ws_name tw) = Some n).
-           { unfold clr. destruct (fname_eqb n (ws_name tw)) eqn:E; [|reflexivity]. apply fname_eqb_eq in E. exfalso.
-             destruct (Hst n eq_refl) as (Hex & _). rewrite Ctail in Et. inversion Et; subst tw. cbn [new_wseg ws_name] in E. subst n. apply Hex. exact Hl. }
-           rewrite Hcl in G4. exact G4.
-        -- apply del_disk_drel. exact G4.
+        split; [eapply pfx_more; [apply pfx_end; apply Hsh1|eapply aext_trans; [apply Hsh2|exact D2']]|].
+        split; [rewrite Ctail in Et; inversion Et; subst tw; exact Hl|].
+        assert (G4' : drel X (e_disk e2) (apply_act (e_disk ec1) (append_act tw ls))) by (eapply drel_rem_weaken; exact G4).
+        rewrite D4. destruct (del_fails e2).
+        -- right. exact G4'.
+        -- left. unfold del_disk. cbn [fold_left]. apply drel_delete_stale. exact G4'.
   - intros E1 _. inversion E1; subst. right. split; [exact A|]. split; [reflexivity|]. left. auto.
   - intros E1 E2. inversion E1; subst. right. split; [exact A|]. split; [reflexivity|]. right. left. split; [reflexivity|].
-    exists ps. split; [exact C1|].
+    exists ps, ti.
     destruct (store_go _ ls wc1 ec1) as [[rc2 wc2] ec2] eqn:Egc.
     pose proof (sh_store_go _ _ _ _ _ _ _ (proj2 Hsh1) Egc) as Hsh2.
     destruct (sh_store_go_keys _ _ _ _ _ _ _ (proj2 Hsh1) Egc) as (K1 & K2).
     specialize (C4 ti Eti Hbase). subst delsc.
     remember (delete_files [name_of ti] ec2) as ec3 eqn:Hec3. injection E2 as <- <- <-. subst ec3.
-    split; [eapply pfx_more; [exact C2|]; eapply aext_trans; [apply Hsh2|]; apply sh_delete_files; apply Hsh2|].
+    assert (Ha2 : aext ec1 (delete_files [name_of ti] ec2)) by (eapply aext_trans; [apply Hsh2|]; apply sh_delete_files; apply Hsh2).
+    split.
+    { destruct C1 as (dm & P1 & P2 & P3 & P4 & P5). exists dm. split; [exact P1|]. split; [eapply pfx_more; eauto|]. auto. }
     rewrite (delete_files_disk _ _ (proj2 Hsh2)). destruct (del_disk_meta [name_of ti] (e_disk ec2)) as (M1 & _).
-    split; [rewrite M1, K2; exact C3|].
-    intros n Ho. rewrite del_disk_lookup.
-    + replace (mem_name n [name_of ti]) with true; [reflexivity|]. symmetry. apply mem_name_spec. apply Hdel. exact Ho.
-    + rewrite K1. exact C5.
+    split; [rewrite M1, K2; exact C3|]. split; [exact Eti|].
+    rewrite del_disk_lookup by (rewrite K1; exact C5).
+    replace (mem_name (name_of ti) [name_of ti]) with true; [reflexivity|]. symmetry. apply mem_name_spec. left. reflexivity.
 Qed.
 
 (* ------------------------------------------------------------------ *)
@@ -397,20 +368,13 @@ Proof.
 Qed.
 
 (* a failed state transaction: nothing published, or published on disk only
-   (then the file that may carry a stale batch is among the deleted ones) *)
-Definition txn_failed (o : option fname) (w0 w : wal) (e ec : env) (w' : wal) (e' : env) (ec' : env) : Prop :=
+   (then the tail of [w] is among the files the shadow run deleted) *)
+Definition txn_failed (X : list fname) (w0 w : wal) (e ec : env) (w' : wal) (e' : env) (ec' : env) : Prop :=
   (w' = w0 /\ e_disk e' = e_disk e) \/
   (w' = set_failed w0 /\
-   exists ps, drel o (e_disk e') (apply_act (e_disk ec) (ACommit ps)) /\ pfx ec ec' (apply_act (e_disk ec) (ACommit ps)) /\
-              dk_meta (e_disk ec') = Some ps /\
-              (forall n ti, o = Some n -> tail_info (st_segs w) = Some ti -> name_of ti = n -> si_sealed ti = false ->
-                            lookup n (dk_files (e_disk ec')) = None)).
-
-Lemma drel_gone n d dc : drel (Some n) d dc -> lookup n (dk_files dc) = None -> drel None d dc.
-Proof.
-  intros (H1 & H2 & H3 & H4 & H5 & H6) Hn. repeat split; auto. intros m f g A B _. apply (H6 m f g A B).
-  intros K. inversion K; subst. congruence.
-Qed.
+   exists ps, post_commit X ec ec' (e_disk e') ps /\ dk_meta (e_disk ec') = Some ps /\
+              (forall ti, tail_info (st_segs w) = Some ti -> si_sealed ti = false ->
+                          lookup (name_of ti) (dk_files (e_disk ec')) = None)).
 
 Lemma head_scan_spec nm tl : forall segs del ntr rest del' ntr' head,
   head_scan nm tl segs del ntr = (rest, del', ntr', head) ->
@@ -431,82 +395,94 @@ Lemma tail_info_app_ne a l : l <> [] -> tail_info (a ++ l) = tail_info l.
 Proof. intros H. induction a as [|x a IH]; [reflexivity|]. cbn [app]. rewrite tail_info_cons_ne; [exact IH|]. destruct a; cbn; [exact H|discriminate]. Qed.
 
 (* the common use of [mutate_lock] by the truncations *)
-Lemma mutate_lock' o w0 w t e1 ec1 r w' e' rc wc' ec' : R o e1 ec1 ->
+Lemma mutate_lock' X w0 w t e1 ec1 r w' e' rc wc' ec' : R X e1 ec1 ->
   mutate w0 t e1 = (r, w', e') -> mutate w0 t ec1 = (rc, wc', ec') ->
-  (forall n ti, o = Some n -> tail_info (st_segs w) = Some ti -> name_of ti = n -> si_sealed ti = false ->
-                tx_create t <> None -> In n (tx_delete t)) ->
-  (r = rc /\ w' = wc' /\ R o e' ec' /\ (rc = ROk -> forall n, o = Some n -> In n (tx_delete t) -> R None e' ec') /\
+  (forall ti, tail_info (st_segs w) = Some ti -> si_sealed ti = false -> tx_create t <> None -> In (name_of ti) (tx_delete t)) ->
+  (r = rc /\ w' = wc' /\ Rd X (dels_of false rc t) ec1 e' ec' /\
    (rc = ROk -> st_segs wc' = tx_segs t /\ (tx_create t = None -> st_tail wc' = tx_tail t)) /\
    (rc <> ROk -> st_failed wc' = true)) \/
-  (e_fault e' = None /\ r = RErrIO /\ txn_failed o w0 w e1 ec1 w' e' ec').
+  (e_fault e' = None /\ r = RErrIO /\ txn_failed X w0 w e1 ec1 w' e' ec').
 Proof.
   intros HR1 E1 E2 Hin.
-  destruct (mutate_lock o w0 t _ _ _ _ _ _ _ _ HR1 E1 E2) as [(H1 & H2 & H3 & H4 & H5)|(A & B & [C|(C0 & C1 & C2 & C3 & C4 & C5 & C6 & _)])].
-  - left. split; [exact H1|]. split; [exact H2|]. split; [exact H3|]. split; [exact H4|]. split; [|exact H5].
+  destruct (mutate_lock X w0 t _ _ _ _ _ _ _ _ HR1 E1 E2) as [(H1 & H2 & H3 & H5)|(A & B & [C|(C0 & C1 & C2 & C3 & C5 & C6 & _)])].
+  - left. split; [exact H1|]. split; [exact H2|]. split; [exact H3|]. split; [|exact H5].
     intros Hr. subst rc. unfold mutate in E2. destruct (mutate_gen false w0 t _) as [[[r0 w1] e0] d0] eqn:Eg. inversion E2; subst.
     destruct (mutate_gen_ok_facts _ _ _ _ _ _ _ Eg) as (F1 & _ & _ & F4 & _). split; [exact F4|]. intros Hn. rewrite Hn in F1. exact F1.
   - right. split; [exact A|]. split; [exact B|]. left. exact C.
-  - right. split; [exact A|]. split; [exact B|]. right. split; [exact C1|]. eexists. split; [exact C3|]. split; [exact C4|].
-    split; [exact C5|]. intros n ti Ho Hti Hn Hs. apply C6. apply (Hin n ti Ho Hti Hn Hs C2).
+  - right. split; [exact A|]. split; [exact B|]. right. split; [exact C1|]. eexists. split; [exact C3|].
+    split; [exact C5|]. intros ti Hti Hs. apply C6. apply (Hin ti Hti Hs C2).
 Qed.
 
-Lemma txn_failed_shift o w0 w e ec e1 ec1 w' e' ec' :
+Lemma txn_failed_shift X w0 w e ec e1 ec1 w' e' ec' :
   e_disk e1 = e_disk e -> aext ec ec1 -> e_disk ec1 = e_disk ec ->
-  txn_failed o w0 w e1 ec1 w' e' ec' -> txn_failed o w0 w e ec w' e' ec'.
+  txn_failed X w0 w e1 ec1 w' e' ec' -> txn_failed X w0 w e ec w' e' ec'.
 Proof.
-  intros He Ha Hec [(A & B)|(A & ps & B & C & D)]; [left; split; [exact A|congruence]|right].
-  split; [exact A|]. exists ps. rewrite <- Hec. split; [exact B|]. split; [eapply pfx_shift; eauto|exact D].
+  intros He Ha Hec [(A & B)|(A & ps & B & C)]; [left; split; [exact A|congruence]|right].
+  split; [exact A|]. exists ps. split; [eapply post_commit_shift; eauto|exact C].
 Qed.
 
-Lemma mutate_ok_disk w t e w' e' : mutate w t e = (ROk, w', e') -> tx_create t = None ->
-  e_disk e' = del_disk (tx_delete t) (apply_act (e_disk e) (ACommit (tx_ps t))).
+Lemma mutate_ok_lookup w t e w' e' n : mutate w t e = (ROk, w', e') -> tx_create t = None ->
+  ~ In n (tx_delete t) -> NoDup (map fst (dk_files (e_disk e))) ->
+  lookup n (dk_files (e_disk e')) = lookup n (dk_files (e_disk e)).
 Proof.
-  unfold mutate, mutate_gen. fold (tx_ps t). intros E Hn. rewrite Hn in E.
-  destruct (io_cases (ACommit (tx_ps t)) e) as [(e1 & E1 & D & _)|(_ & e1 & E1 & _)]; rewrite E1 in E; cbn [negb] in E; [|inversion E].
-  inversion E; subst. destruct (delete_files_real (tx_delete t) e1) as (K & _). rewrite K, D. reflexivity.
+  unfold mutate, mutate_gen. fold (tx_ps t). intros E Hn Hnot ND. rewrite Hn in E.
+  destruct (io_cases (ACommit (tx_ps t)) e eq_refl) as [(e1 & E1 & D & _)|(e1 & E1 & _)]; rewrite E1 in E; cbn [negb] in E; [|inversion E].
+  inversion E; subst. destruct (delete_files_real (tx_delete t) e1) as (_ & _ & K). rewrite K, D.
+  destruct (del_fails e1); [reflexivity|]. rewrite del_disk_lookup by exact ND.
+  replace (mem_name n (tx_delete t)) with false; [reflexivity|]. symmetry.
+  destruct (mem_name n (tx_delete t)) eqn:Em; [|reflexivity]. apply mem_name_spec in Em. contradiction.
 Qed.
 
 Definition keeps_tail (w : wal) (n : fname) : Prop :=
   forall sk r, st_segs w = sk ++ r -> r <> [] -> ~ In n (map name_of sk).
 
-Lemma truncate_head_lock o c w nm e ec r w' e' rc wc' ec' : R o e ec ->
+(* what a successful DeleteRange did to the tail [ti] of [w]: it is still the tail, with
+   the same writer and (if its name is unique) the same file; or it was unlisted and is
+   among the names [ns] the call deleted or tried to delete *)
+Definition tail_fate (w : wal) (e : env) (wc' : wal) (e' : env) (ns : list fname) : Prop :=
+  forall ti, tail_info (st_segs w) = Some ti ->
+    (exists ti', tail_info (st_segs wc') = Some ti' /\ name_of ti' = name_of ti /\ st_tail wc' = st_tail w /\
+                 (keeps_tail w (name_of ti) -> lookup (name_of ti) (dk_files (e_disk e')) = lookup (name_of ti) (dk_files (e_disk e)))) \/
+    In (name_of ti) ns.
+
+Lemma truncate_head_lock X c w nm e ec r w' e' rc wc' ec' : R X e ec ->
   truncate_head c w nm e = (r, w', e') -> truncate_head c w nm ec = (rc, wc', ec') ->
-  (r = rc /\ w' = wc' /\ R o e' ec' /\
-   (rc = ROk -> forall n ti, o = Some n -> tail_info (st_segs w) = Some ti -> name_of ti = n ->
-      (exists ti', tail_info (st_segs wc') = Some ti' /\ name_of ti' = n /\ st_tail wc' = st_tail w /\
-                   (keeps_tail w n -> lookup n (dk_files (e_disk e')) = lookup n (dk_files (e_disk e)))) \/ R None e' ec') /\
-   (rc <> ROk -> st_failed wc' = true)) \/
-  (e_fault e' = None /\ r = RErrIO /\ txn_failed o w w e ec w' e' ec').
+  (r = rc /\ w' = wc' /\ (rc <> ROk -> st_failed wc' = true) /\
+   exists ns, Rd X (match rc with ROk => ns | _ => [] end) ec e' ec' /\ (rc = ROk -> tail_fate w e wc' e' ns)) \/
+  (e_fault e' = None /\ r = RErrIO /\ txn_failed X w w e ec w' e' ec').
 Proof.
   intros HR. unfold truncate_head. destruct (head_scan _ _ _ _ _) as [[[rest del] ntr] head] eqn:Ehs.
   destruct (head_scan_spec _ _ _ _ _ _ _ _ _ Ehs) as (sk & Hsegs & Hdel & Hhead). cbn [app] in Hdel.
   destruct head as [h|].
   - destruct Hhead as (r0 & ->). intros E1 E2.
     match type of E1 with mutate _ ?t (add_m e ?f) = _ =>
-      destruct (mutate_lock' o w w t _ _ _ _ _ _ _ _ (R_add_m o e ec f f HR) E1 E2) as [(A & B & C & D & E & F)|(A & B & C)] end.
-    { intros n ti _ _ _ _ K. exfalso. apply K. reflexivity. }
-    + left. split; [exact A|]. split; [exact B|]. split; [exact C|]. split; [|exact F]. intros Hr n ti Ho Hti Hn. left.
+      destruct (mutate_lock' X w w t _ _ _ _ _ _ _ _ (R_add_m X e ec f f HR) E1 E2) as [(A & B & C & E & F)|(A & B & C)] end.
+    { intros ti _ _ K. exfalso. apply K. reflexivity. }
+    + left. split; [exact A|]. split; [exact B|]. split; [exact F|]. exists del. cbn [tx_delete dels_of] in C.
+      split; [eapply Rd_shift; [apply aext_add_m|exact C]|]. intros Hr ti Hti. left.
       destruct (E Hr) as (E1' & E2'). cbn [tx_segs tx_create tx_tail] in E1', E2'. specialize (E2' eq_refl).
       rewrite E1'. cbn [seg_set si_base]. rewrite N.ltb_irrefl, N.eqb_refl.
       rewrite Hsegs in Hti. rewrite tail_info_app_ne in Hti by discriminate.
-      assert (Hkeep : keeps_tail w n -> lookup n (dk_files (e_disk e')) = lookup n (dk_files (e_disk e))).
-      { intros Hk. subst rc r. rewrite (mutate_ok_disk _ _ _ _ _ E1 eq_refl). cbn [tx_delete].
-        rewrite del_disk_lookup by (cbn [apply_act dk_files add_m with_m e_disk]; apply (drel_NoDup _ _ _ (proj1 HR))).
-        replace (mem_name n del) with false; [reflexivity|]. symmetry. destruct (mem_name n del) eqn:Em; [|reflexivity]. exfalso.
-        apply mem_name_spec in Em. rewrite Hdel in Em. apply (Hk sk (h :: r0) Hsegs ltac:(discriminate) Em). }
+      assert (Hkeep : keeps_tail w (name_of ti) -> lookup (name_of ti) (dk_files (e_disk e')) = lookup (name_of ti) (dk_files (e_disk e))).
+      { intros Hk. subst rc r.
+        rewrite (mutate_ok_lookup _ _ _ _ _ (name_of ti) E1 eq_refl); [reflexivity| |apply (drel_NoDup _ _ _ (proj1 HR))].
+        cbn [tx_delete]. rewrite Hdel. apply (Hk sk (h :: r0) Hsegs ltac:(discriminate)). }
       destruct r0 as [|x r0].
-      * cbn in Hti. inversion Hti; subst ti. eexists. split; [reflexivity|]. split; [exact Hn|]. split; [exact E2'|exact Hkeep].
+      * cbn in Hti. inversion Hti; subst ti. eexists. split; [reflexivity|]. split; [reflexivity|]. split; [exact E2'|exact Hkeep].
       * rewrite tail_info_cons_ne in Hti by discriminate. exists ti. rewrite tail_info_cons_ne by discriminate. auto.
-    + right. split; [exact A|]. split; [exact B|]. match type of C with txn_failed _ _ _ (add_m _ ?f) _ _ _ _ => apply (txn_failed_shift o w w e ec (add_m e f) (add_m ec f)); [reflexivity|apply aext_add_m|reflexivity|exact C] end.
+    + right. split; [exact A|]. split; [exact B|].
+      match type of C with txn_failed _ _ _ (add_m _ ?f) _ _ _ _ => apply (txn_failed_shift X w w e ec (add_m e f) (add_m ec f)); [reflexivity|apply aext_add_m|reflexivity|exact C] end.
   - subst rest. rewrite app_nil_r in Hsegs. subst sk.
     destruct (create_next _ _ _ _) as [[nid segs2] si].
     intros E1 E2.
     match type of E1 with mutate _ ?t (add_m e ?f) = _ =>
-      destruct (mutate_lock' o w w t _ _ _ _ _ _ _ _ (R_add_m o e ec f f HR) E1 E2) as [(A & B & C & D & E & F)|(A & B & C)] end.
-    { intros n ti _ Hti Hn _ _. cbn [tx_delete]. rewrite Hdel. apply in_map_iff. exists ti. split; [exact Hn|]. apply tail_info_In. exact Hti. }
-    + left. split; [exact A|]. split; [exact B|]. split; [exact C|]. split; [|exact F]. intros Hr n ti Ho Hti Hn. right.
-      apply (D Hr n Ho). cbn [tx_delete]. rewrite Hdel. apply in_map_iff. exists ti. split; [exact Hn|]. apply tail_info_In. exact Hti.
-    + right. split; [exact A|]. split; [exact B|]. match type of C with txn_failed _ _ _ (add_m _ ?f) _ _ _ _ => apply (txn_failed_shift o w w e ec (add_m e f) (add_m ec f)); [reflexivity|apply aext_add_m|reflexivity|exact C] end.
+      destruct (mutate_lock' X w w t _ _ _ _ _ _ _ _ (R_add_m X e ec f f HR) E1 E2) as [(A & B & C & E & F)|(A & B & C)] end.
+    { intros ti Hti _ _. cbn [tx_delete]. rewrite Hdel. apply in_map_iff. exists ti. split; [reflexivity|]. apply tail_info_In. exact Hti. }
+    + left. split; [exact A|]. split; [exact B|]. split; [exact F|]. exists del. cbn [tx_delete dels_of] in C.
+      split; [eapply Rd_shift; [apply aext_add_m|exact C]|]. intros Hr ti Hti. right.
+      rewrite Hdel. apply in_map_iff. exists ti. split; [reflexivity|]. apply tail_info_In. exact Hti.
+    + right. split; [exact A|]. split; [exact B|].
+      match type of C with txn_failed _ _ _ (add_m _ ?f) _ _ _ _ => apply (txn_failed_shift X w w e ec (add_m e f) (add_m ec f)); [reflexivity|apply aext_add_m|reflexivity|exact C] end.
 Qed.
 
 Definition set_tail (w : wal) (t : option wseg) : wal :=
@@ -550,93 +526,94 @@ Proof.
       eapply shok_trans; [exact H1|]. eapply shok_trans; [apply shok_add_m; apply H1|]. eapply sh_mutate; [|exact E]. apply H1.
 Qed.
 
-Definition tail_failed (o : option fname) (w : wal) (e ec : env) (w' : wal) (e' : env) (ec' : env) : Prop :=
-  txn_failed o w w e ec w' e' ec' \/
+Definition tail_failed (X : list fname) (w : wal) (e ec : env) (w' : wal) (e' : env) (ec' : env) : Prop :=
+  txn_failed X w w e ec w' e' ec' \/
   (exists tw, st_tail w = Some tw /\ ws_index_start tw = 0 /\ ws_n tw <> 0 /\ w' = w /\
      (e_disk e' = e_disk e \/
-      (drel (clr o (ws_name tw)) (e_disk e') (apply_act (e_disk ec) (force_act tw)) /\
+      (drel (rem (ws_name tw) X) (e_disk e') (apply_act (e_disk ec) (force_act tw)) /\
        pfx ec ec' (apply_act (e_disk ec) (force_act tw))))) \/
-  (exists tw tw' e1 ec1 o',
+  (exists tw tw' e1 ec1 X',
      st_tail w = Some tw /\ seg_force_seal tw ec = (ROk, tw', ec1) /\ seg_force_seal tw e = (ROk, tw', e1) /\
-     R o' e1 ec1 /\ (o' = o \/ (ws_index_start tw = 0 /\ o' = clr o (ws_name tw))) /\
-     (ws_index_start tw = 0 -> o' = clr o (ws_name tw)) /\ shok ec ec1 /\
+     R X' e1 ec1 /\ (X' = X \/ (ws_index_start tw = 0 /\ X' = rem (ws_name tw) X)) /\
+     (ws_index_start tw = 0 -> X' = rem (ws_name tw) X) /\ shok ec ec1 /\
      ((w' = set_tail w (Some tw') /\ e_disk e' = e_disk e1 /\ pfx ec ec' (e_disk ec1)) \/
       (w' = set_failed (set_tail w (Some tw')) /\
-       exists ps, drel o' (e_disk e') (apply_act (e_disk ec1) (ACommit ps)) /\
-                  pfx ec ec' (apply_act (e_disk ec1) (ACommit ps)) /\ dk_meta (e_disk ec') = Some ps))).
+       exists ps, post_commit X' ec1 ec' (e_disk e') ps /\ dk_meta (e_disk ec') = Some ps))).
 
-Lemma truncate_tail_lock o c w nm e ec r w' e' rc wc' ec' : R o e ec ->
-  (forall tw, st_tail w = Some tw -> o = Some (ws_name tw) -> wguard (e_disk e) (ws_name tw) (ws_off tw)) ->
+Lemma truncate_tail_lock X c w nm e ec r w' e' rc wc' ec' : R X e ec ->
+  (forall tw, st_tail w = Some tw -> In (ws_name tw) X -> wguard (e_disk e) (ws_name tw) (ws_off tw)) ->
   truncate_tail c w nm e = (r, w', e') -> truncate_tail c w nm ec = (rc, wc', ec') ->
-  (r = rc /\ w' = wc' /\ R o e' ec' /\
-   (rc = ROk -> forall n ti tw, o = Some n -> tail_info (st_segs w) = Some ti -> name_of ti = n -> si_sealed ti = false ->
-      st_tail w = Some tw -> ws_name tw = n -> ws_index_start tw = 0 -> R None e' ec') /\
-   (rc <> ROk -> st_failed wc' = true \/ (w' = w /\ e' = e /\ ec' = ec))) \/
-  (e_fault e' = None /\ r = RErrIO /\ tail_failed o w e ec w' e' ec').
+  (r = rc /\ w' = wc' /\
+   (rc <> ROk -> st_failed wc' = true \/ (w' = w /\ e' = e /\ ec' = ec)) /\
+   (rc = ROk -> exists ns X', Rd X' ns ec e' ec' /\ incl X' X /\
+      forall ti tw, tail_info (st_segs w) = Some ti -> si_sealed ti = false ->
+         st_tail w = Some tw -> ws_name tw = name_of ti -> ws_index_start tw = 0 -> ~ In (name_of ti) X' \/ In (name_of ti) ns)) \/
+  (e_fault e' = None /\ r = RErrIO /\ tail_failed X w e ec w' e' ec').
 Proof.
   intros HR Hg. unfold truncate_tail. destruct (tail_scan _ _ _ _ _) as [[rrest del] ntr] eqn:Ets.
   destruct (tail_scan_spec _ _ _ _ _ _ _ _ Ets) as (sk & Hrev & Hdel). cbn [app] in Hdel.
   destruct rrest as [|t rr].
   - rewrite app_nil_r in Hrev. destruct (create_next _ _ _ _) as [[nid segs2] si].
     intros E1 E2.
-    assert (Hall : forall n ti, tail_info (st_segs w) = Some ti -> name_of ti = n -> In n del).
-    { intros n ti Hti Hn. rewrite Hdel. apply in_map_iff. exists ti. split; [exact Hn|].
+    assert (Hall : forall ti, tail_info (st_segs w) = Some ti -> In (name_of ti) del).
+    { intros ti Hti. rewrite Hdel. apply in_map_iff. exists ti. split; [reflexivity|].
       rewrite <- Hrev. apply in_rev. rewrite rev_involutive. apply tail_info_In. exact Hti. }
-    destruct (mutate_lock' o w w _ _ _ _ _ _ _ _ _ HR E1 E2) as [(A & B & C & D & _ & F)|(A & B & C)].
-    { intros n ti _ Hti Hn _ _. apply (Hall n ti Hti Hn). }
-    + left. split; [exact A|]. split; [exact B|]. split; [exact C|]. split; [|intros K; left; apply F; exact K].
-      intros Hr n ti tw Ho Hti Hn _ _ _ _. apply (D Hr n Ho). apply (Hall n ti Hti Hn).
+    destruct (mutate_lock' X w w _ _ _ _ _ _ _ _ _ HR E1 E2) as [(A & B & C & _ & F)|(A & B & C)].
+    { intros ti Hti _ _. apply (Hall ti Hti). }
+    + left. split; [exact A|]. split; [exact B|]. split; [intros K; left; apply F; exact K|].
+      intros Hr. rewrite Hr in C. exists del, X. cbn [dels_of tx_delete] in C. split; [exact C|]. split; [apply incl_refl|].
+      intros ti tw Hti _ _ _ _. right. apply (Hall ti Hti).
     + right. split; [exact A|]. split; [exact B|]. left. exact C.
   - destruct (si_sealed t) eqn:Eseal.
     + destruct (create_next _ _ _ _) as [[nid segs2] si].
       fold (set_tail w (st_tail w)). rewrite set_tail_id.
       intros E1 E2.
-      assert (Hall : forall n ti, tail_info (st_segs w) = Some ti -> name_of ti = n -> si_sealed ti = false -> In n del).
-      { intros n ti Hti Hn Hus. rewrite Hdel.
+      assert (Hall : forall ti, tail_info (st_segs w) = Some ti -> si_sealed ti = false -> In (name_of ti) del).
+      { intros ti Hti Hus. rewrite Hdel.
         destruct (tail_info_rev _ _ Hti) as (r0 & Hr0). rewrite Hr0 in Hrev.
         destruct sk as [|x sk]; cbn [app] in Hrev; injection Hrev as Hx Hrest; [congruence|]. subst x.
-        apply in_map_iff. exists ti. split; [exact Hn|left; reflexivity]. }
+        apply in_map_iff. exists ti. split; [reflexivity|left; reflexivity]. }
       match type of E1 with mutate _ ?t0 (add_m e ?f) = _ =>
-        destruct (mutate_lock' o w w t0 _ _ _ _ _ _ _ _ (R_add_m o e ec f f HR) E1 E2) as [(A & B & C & D & _ & F)|(A & B & C)] end.
-      { intros n ti _ Hti Hn Hus _. apply (Hall n ti Hti Hn Hus). }
-      * left. split; [exact A|]. split; [exact B|]. split; [exact C|]. split; [|intros K; left; apply F; exact K].
-        intros Hr n ti tw Ho Hti Hn Hus _ _ _. apply (D Hr n Ho). apply (Hall n ti Hti Hn Hus).
+        destruct (mutate_lock' X w w t0 _ _ _ _ _ _ _ _ (R_add_m X e ec f f HR) E1 E2) as [(A & B & C & _ & F)|(A & B & C)] end.
+      { intros ti Hti Hus _. apply (Hall ti Hti Hus). }
+      * left. split; [exact A|]. split; [exact B|]. split; [intros K; left; apply F; exact K|].
+        intros Hr. rewrite Hr in C. exists del, X. cbn [dels_of tx_delete] in C. split; [eapply Rd_shift; [apply aext_add_m|exact C]|]. split; [apply incl_refl|].
+        intros ti tw Hti Hus _ _ _. right. apply (Hall ti Hti Hus).
       * right. split; [exact A|]. split; [exact B|]. left.
-        match type of C with txn_failed _ _ _ (add_m _ ?f) _ _ _ _ => apply (txn_failed_shift o w w e ec (add_m e f) (add_m ec f)); [reflexivity|apply aext_add_m|reflexivity|exact C] end.
+        match type of C with txn_failed _ _ _ (add_m _ ?f) _ _ _ _ => apply (txn_failed_shift X w w e ec (add_m e f) (add_m ec f)); [reflexivity|apply aext_add_m|reflexivity|exact C] end.
     + destruct (st_tail w) as [tw|] eqn:Etw.
-      2:{ intros E1 E2; inversion E1; inversion E2; subst; left. split; [reflexivity|]. split; [reflexivity|]. split; [exact HR|].
-          split; [discriminate|]. intros _. right. auto. }
+      2:{ intros E1 E2; inversion E1; inversion E2; subst; left. split; [reflexivity|]. split; [reflexivity|].
+          split; [intros _; right; auto|discriminate]. }
       destruct (seg_force_seal tw e) as [[r1 tw1] e1] eqn:Efs. destruct (seg_force_seal tw ec) as [[rc1 twc1] ec1] eqn:Efsc.
-      destruct (seg_force_seal_lock o tw e ec _ _ _ _ _ _ HR (Hg tw eq_refl) Efs Efsc)
+      destruct (seg_force_seal_lock X tw e ec _ _ _ _ _ _ HR (Hg tw eq_refl) Efs Efsc)
         as (A1 & A2 & [(-> & -> & B3 & B4 & B5)|(-> & B0 & Bn & -> & -> & B3 & B4)]).
-      * destruct rc1; try (intros E1 E2; inversion E1; inversion E2; subst; left; split; [reflexivity|]; split; [reflexivity|]; split; [exact B3|];
-                           split; [discriminate|]; intros _; right; destruct B5 as (X & Y & Z); [left; discriminate|]; subst;
+      * destruct rc1; try (intros E1 E2; inversion E1; inversion E2; subst; left; split; [reflexivity|]; split; [reflexivity|];
+                           split; [|discriminate]; intros _; right; destruct B5 as (X0 & Y & Z); [left; discriminate|]; subst;
                            split; [fold (set_tail w (Some tw)); rewrite <- Etw; apply set_tail_id|auto]).
         destruct (create_next _ _ _ _) as [[nid segs2] si].
         fold (set_tail w (Some twc1)).
-        assert (Ho' : exists o', R o' e1 ec1 /\ (o' = o \/ (ws_index_start tw = 0 /\ o' = clr o (ws_name tw))) /\
-                                 (ws_index_start tw = 0 -> o' = clr o (ws_name tw))).
+        assert (Ho' : exists X', R X' e1 ec1 /\ (X' = X \/ (ws_index_start tw = 0 /\ X' = rem (ws_name tw) X)) /\
+                                 (ws_index_start tw = 0 -> X' = rem (ws_name tw) X)).
         { destruct (N.eq_dec (ws_index_start tw) 0) as [Z|Z].
-          - exists (clr o (ws_name tw)). split; [apply B4; auto|]. split; [right; auto|auto].
-          - exists o. split; [exact B3|]. split; [left; reflexivity|]. intros K; contradiction. }
-        destruct Ho' as (o' & HR1 & Ho' & Ho'').
+          - exists (rem (ws_name tw) X). split; [apply B4; auto|]. split; [right; auto|auto].
+          - exists X. split; [exact B3|]. split; [left; reflexivity|]. intros K; contradiction. }
+        destruct Ho' as (X' & HR1 & Ho' & Ho'').
         intros E1 E2.
         match type of E1 with mutate _ ?t0 (add_m e1 ?f) = _ =>
-          destruct (mutate_lock o' _ t0 _ _ _ _ _ _ _ _ (R_add_m o' e1 ec1 f f HR1) E1 E2) as [(A & B & C & D & F)|(A & B & C)] end.
-        -- left. split; [exact A|]. split; [exact B|]. split.
-           { destruct Ho' as [->|(_ & ->)]; [exact C|eapply R_clr_weaken; exact C]. }
-           split; [|intros K; left; apply F; exact K].
-           intros Hr n ti tw0 Ho Hti Hn Hus Htw0 Hname His. inversion Htw0; subst tw0.
-           rewrite (Ho'' His) in C. rewrite Ho, <- Hname in C. unfold clr in C. rewrite fname_eqb_refl in C. exact C.
+          destruct (mutate_lock X' _ t0 _ _ _ _ _ _ _ _ (R_add_m X' e1 ec1 f f HR1) E1 E2) as [(A & B & C & F)|(A & B & C)] end.
+        -- left. split; [exact A|]. split; [exact B|]. split; [intros K; left; apply F; exact K|].
+           intros Hr. rewrite Hr in C. exists del, X'. cbn [dels_of tx_delete] in C.
+           split; [eapply Rd_shift; [exact A1|]; eapply Rd_shift; [apply aext_add_m|exact C]|].
+           split; [destruct Ho' as [->|(_ & ->)]; [apply incl_refl|apply rem_incl]|].
+           intros ti tw0 Hti Hus Htw0 Hname His. inversion Htw0; subst tw0. left. rewrite (Ho'' His), <- Hname. apply rem_not.
         -- right. split; [exact A|]. split; [exact B|]. right. right.
-           exists tw, twc1, e1, ec1, o'. split; [exact Etw|]. split; [exact Efsc|]. split; [exact Efs|]. split; [exact HR1|].
+           exists tw, twc1, e1, ec1, X'. split; [exact Etw|]. split; [exact Efsc|]. split; [exact Efs|]. split; [exact HR1|].
            split; [exact Ho'|]. split; [exact Ho''|]. split; [split; [exact A1|exact A2]|].
-           destruct C as [(C1 & C2)|(C0 & C1 & _ & C2 & C3 & C4 & _)].
+           destruct C as [(C1 & C2)|(C0 & C1 & _ & C2 & C4 & _)].
            ++ left. split; [exact C1|]. split; [exact C2|].
               match type of E2 with mutate ?w0 ?t ?e0 = _ => pose proof (sh_mutate w0 t e0 _ _ _ A2 E2) as Hsh end.
               eapply pfx_more; [apply pfx_end; exact A1|]. eapply aext_trans; [apply aext_add_m|apply Hsh].
-           ++ right. split; [exact C1|]. eexists. split; [exact C2|].
-              split; [eapply pfx_shift; [exact A1|]; eapply pfx_shift; [apply aext_add_m|exact C3]|exact C4].
+           ++ right. split; [exact C1|]. eexists. split; [eapply post_commit_shift; [apply aext_add_m|reflexivity|exact C2]|exact C4].
       * intros E1 E2; inversion E1; inversion E2; subst. right.
         split; [exact B3|]. split; [reflexivity|]. right. left. exists tw. split; [exact Etw|]. split; [exact B0|]. split; [exact Bn|].
         split; [fold (set_tail w (Some tw)); rewrite <- Etw; apply set_tail_id|].
@@ -657,39 +634,40 @@ Proof.
   intros E; inversion E; subst; apply shok_refl; exact Hf.
 Qed.
 
-Lemma delete_range_lock o c w mn mx e ec r w' e' rc wc' ec' : R o e ec ->
-  (forall tw, st_tail w = Some tw -> o = Some (ws_name tw) -> wguard (e_disk e) (ws_name tw) (ws_off tw)) ->
+(* the outcome of a DeleteRange on which both runs agree *)
+Definition delete_same (X : list fname) (w : wal) (e ec : env) (rc : result) (wc' : wal) (e' ec' : env) : Prop :=
+  (rc <> ROk -> st_failed wc' = true \/ (wc' = w /\ e' = e /\ ec' = ec)) /\
+  (rc = ROk ->
+     (wc' = w /\ e' = e /\ ec' = ec) \/
+     (* head truncation: the stale set is unchanged; the tail survives or is among ns *)
+     (exists ns, Rd X ns ec e' ec' /\ tail_fate w e wc' e' ns) \/
+     (* tail truncation: the tail was written (forced seal) or is among ns *)
+     (exists ns X', Rd X' ns ec e' ec' /\ incl X' X /\
+        forall ti tw, tail_info (st_segs w) = Some ti -> si_sealed ti = false ->
+           st_tail w = Some tw -> ws_name tw = name_of ti -> ws_index_start tw = 0 -> ~ In (name_of ti) X' \/ In (name_of ti) ns)).
+
+Lemma delete_range_lock X c w mn mx e ec r w' e' rc wc' ec' : R X e ec ->
+  (forall tw, st_tail w = Some tw -> In (ws_name tw) X -> wguard (e_disk e) (ws_name tw) (ws_off tw)) ->
   delete_range c w mn mx e = (r, w', e') -> delete_range c w mn mx ec = (rc, wc', ec') ->
-  (r = rc /\ w' = wc' /\ R o e' ec' /\
-   (rc = ROk -> forall n ti tw, o = Some n -> tail_info (st_segs w) = Some ti -> name_of ti = n -> si_sealed ti = false ->
-      st_tail w = Some tw -> ws_name tw = n -> ws_index_start tw = 0 ->
-      (exists ti', tail_info (st_segs wc') = Some ti' /\ name_of ti' = n /\ st_tail wc' = st_tail w /\
-                   (keeps_tail w n -> lookup n (dk_files (e_disk e')) = lookup n (dk_files (e_disk e)))) \/ R None e' ec') /\
-   (rc <> ROk -> st_failed wc' = true \/ (w' = w /\ e' = e /\ ec' = ec))) \/
-  (e_fault e' = None /\ r = RErrIO /\ tail_failed o w e ec w' e' ec').
+  (r = rc /\ w' = wc' /\ delete_same X w e ec rc wc' e' ec') \/
+  (e_fault e' = None /\ r = RErrIO /\ tail_failed X w e ec w' e' ec').
 Proof.
   intros HR Hg. unfold delete_range.
   assert (Hsame : forall r0, (r0, w, e) = (r, w', e') -> (r0, w, ec) = (rc, wc', ec') ->
-    (r = rc /\ w' = wc' /\ R o e' ec' /\
-     (rc = ROk -> forall n ti tw, o = Some n -> tail_info (st_segs w) = Some ti -> name_of ti = n -> si_sealed ti = false ->
-        st_tail w = Some tw -> ws_name tw = n -> ws_index_start tw = 0 ->
-        (exists ti', tail_info (st_segs wc') = Some ti' /\ name_of ti' = n /\ st_tail wc' = st_tail w /\
-                     (keeps_tail w n -> lookup n (dk_files (e_disk e')) = lookup n (dk_files (e_disk e)))) \/ R None e' ec') /\
-     (rc <> ROk -> st_failed wc' = true \/ (w' = w /\ e' = e /\ ec' = ec))) \/
-    (e_fault e' = None /\ r = RErrIO /\ tail_failed o w e ec w' e' ec')).
-  { intros r0 E1 E2. inversion E1; inversion E2; subst. left. split; [reflexivity|]. split; [reflexivity|]. split; [exact HR|].
-    split; [|intros _; right; auto]. intros _ n ti tw _ Hti Hn _ _ _ _. left. exists ti. auto. }
+    (r = rc /\ w' = wc' /\ delete_same X w e ec rc wc' e' ec') \/
+    (e_fault e' = None /\ r = RErrIO /\ tail_failed X w e ec w' e' ec')).
+  { intros r0 E1 E2. inversion E1; inversion E2; subst. left. split; [reflexivity|]. split; [reflexivity|].
+    split; [intros _; right; auto|intros _; left; auto]. }
   destruct (st_closed w); [apply Hsame|]. destruct (mx <? mn); [apply Hsame|]. destruct (st_failed w); [apply Hsame|]. cbv zeta.
   destruct (_ || _); [apply Hsame|].
   destruct (mn <=? _).
-  - intros E1 E2. destruct (truncate_head_lock o c w _ e ec _ _ _ _ _ _ HR E1 E2) as [(A & B & C & D & F)|(A & B & C)].
-    + left. split; [exact A|]. split; [exact B|]. split; [exact C|]. split; [|intros K; left; apply F; exact K].
-      intros Hr n ti tw Ho Hti Hn _ _ _ _. apply (D Hr n ti Ho Hti Hn).
+  - intros E1 E2. destruct (truncate_head_lock X c w _ e ec _ _ _ _ _ _ HR E1 E2) as [(A & B & F & ns & C & D)|(A & B & C)].
+    + left. split; [exact A|]. split; [exact B|]. split; [intros K; left; apply F; exact K|].
+      intros Hr. rewrite Hr in C. right. left. exists ns. split; [exact C|apply D; exact Hr].
     + right. split; [exact A|]. split; [exact B|]. left. exact C.
   - destruct (_ <=? mx); [|apply Hsame].
-    intros E1 E2. destruct (truncate_tail_lock o c w _ e ec _ _ _ _ _ _ HR Hg E1 E2) as [(A & B & C & D & F)|F].
-    + left. split; [exact A|]. split; [exact B|]. split; [exact C|]. split; [|exact F]. intros Hr n ti tw Ho Hti Hn Hs Htw Hname His. right.
-      apply (D Hr n ti tw Ho Hti Hn Hs Htw Hname His).
+    intros E1 E2. destruct (truncate_tail_lock X c w _ e ec _ _ _ _ _ _ HR Hg E1 E2) as [(A & B & F & D)|F].
+    + left. split; [exact A|]. split; [exact B|]. subst w'. split; [exact F|]. intros Hr. right. right. apply (D Hr).
     + right. exact F.
 Qed.
 
@@ -704,20 +682,20 @@ Proof.
   eapply shok_trans; [exact H0|apply shok_io].
 Qed.
 
-Lemma set_stable_lock o w k v nl e ec r e' rc ec' : R o e ec ->
+Lemma set_stable_lock X w k v nl e ec r e' rc ec' : R X e ec ->
   set_stable w k v nl e = (r, e') -> set_stable w k v nl ec = (rc, ec') ->
-  (r = rc /\ R o e' ec') \/ (e_fault e' = None /\ r = RErrIO /\ rc = ROk /\ e_disk e' = e_disk e).
+  (r = rc /\ R X e' ec') \/ (e_fault e' = None /\ r = RErrIO /\ rc = ROk /\ e_disk e' = e_disk e).
 Proof.
   intros HR. unfold set_stable. destruct (st_closed w); [intros E1 E2; inversion E1; inversion E2; subst; left; auto|].
   destruct (negb (key_ok k)); [intros E1 E2; inversion E1; inversion E2; subst; left; split; [reflexivity|exact HR]|].
-  assert (HR0 : R o (inc_stable e true) (inc_stable ec true)) by exact HR.
-  destruct (io_lock o (ASetStable k v) _ _ HR0 I) as (Ec & [(e1 & Er & HR1)|(e1 & Er & D & F)]); rewrite Ec, Er;
+  assert (HR0 : R X (inc_stable e true) (inc_stable ec true)) by exact HR.
+  destruct (io_lock X (ASetStable k v) _ _ HR0 (conj I eq_refl)) as (Ec & [(e1 & Er & HR1 & _)|(e1 & Er & D & F & _)]); rewrite Ec, Er;
     intros E1 E2; inversion E1; inversion E2; subst; [left; auto|right; auto].
 Qed.
 
 (* ------------------------------------------------------------------ *)
 (* Open (reads file contents: needs the strict relation)                *)
-Lemma drel_cur d dc n : drel None d dc ->
+Lemma drel_cur d dc n : drel [] d dc ->
   match lookup n (dk_files d), lookup n (dk_files dc) with
   | Some f, Some g => cur_ents f = cur_ents g /\ cur_end f = cur_end g /\ cur_seal f = cur_seal g
   | None, None => True
@@ -726,11 +704,11 @@ Lemma drel_cur d dc n : drel None d dc ->
 Proof.
   intros (H1 & _ & _ & _ & _ & H6). pose proof (lrel_lookup n _ _ H1) as K.
   destruct (lookup n (dk_files d)) as [f|] eqn:Ef, (lookup n (dk_files dc)) as [g|] eqn:Eg; auto.
-  destruct K as (K1 & K2 & K3 & _). specialize (H6 n f g Ef Eg ltac:(discriminate)).
+  destruct K as (K1 & K2 & K3 & _). specialize (H6 n f g Ef Eg ltac:(intros [])).
   unfold cur_ents, cur_end, cur_seal. rewrite H6, K1, K2, K3. auto.
 Qed.
 
-Lemma seg_recover_rel si e ec : drel None (e_disk e) (e_disk ec) -> seg_recover si e = seg_recover si ec.
+Lemma seg_recover_rel si e ec : drel [] (e_disk e) (e_disk ec) -> seg_recover si e = seg_recover si ec.
 Proof.
   intros H. unfold seg_recover. pose proof (drel_cur _ _ (name_of si) H) as K.
   destruct (lookup _ (dk_files (e_disk e))) as [f|], (lookup _ (dk_files (e_disk ec))) as [g|]; [|destruct K|destruct K|reflexivity].
@@ -755,10 +733,14 @@ Proof.
       destruct (cur_end f =? 0); [intros E; inversion E; subst; apply shok_refl; exact Hf|]. apply IH. exact Hf.
 Qed.
 
-Lemma open_segs_lock c : forall segs acc e ec r sl tl e' rc slc tlc ec', R None e ec ->
+(* Open failed: the real disk is related to a disk the shadow run passes through *)
+Definition open_failed (e1 ec1 : env) (res : open_res) (e' ec' : env) : Prop :=
+  (exists x, res = OErr x) /\ exists dm, drel [] (e_disk e') dm /\ pfx ec1 ec' dm.
+
+Lemma open_segs_lock c : forall segs acc e ec r sl tl e' rc slc tlc ec', R [] e ec ->
   open_segs c segs acc e = (r, sl, tl, e') -> open_segs c segs acc ec = (rc, slc, tlc, ec') ->
-  (r = rc /\ sl = slc /\ tl = tlc /\ R None e' ec') \/
-  (e_fault e' = None /\ r = RErrIO /\ e_disk e' = e_disk e).
+  (r = rc /\ sl = slc /\ tl = tlc /\ R [] e' ec') \/
+  (r = RErrIO /\ exists dm, drel [] (e_disk e') dm /\ pfx ec ec' dm).
 Proof.
   induction segs as [|si segs IH]; intros acc e ec r sl tl e' rc slc tlc ec' HR; cbn [open_segs].
   - intros E1 E2; inversion E1; inversion E2; subst. left. auto.
@@ -770,10 +752,15 @@ Proof.
       * destruct x as [sw|]; [|intros E1 E2; inversion E1; inversion E2; subst; left; auto].
         destruct (0 <? _); intros E1 E2; inversion E1; inversion E2; subst; left; auto.
       * destruct (seg_create si e) as [sw e1] eqn:Es. destruct (seg_create si ec) as [swc ec1] eqn:Esc.
-        destruct (seg_create_lock None si e ec _ _ _ _ HR Es Esc) as (_ & _ & [(-> & HR1)|(-> & -> & D & F & _)]).
+        destruct (seg_create_lock [] si e ec _ _ _ _ HR Es Esc) as (A1 & A2 & [(-> & HR1)|(-> & -> & F & Dc & Hreal)]).
         -- destruct swc as [sw|]; [|intros E1 E2; inversion E1; inversion E2; subst; left; auto].
            destruct (0 <? _); intros E1 E2; inversion E1; inversion E2; subst; left; auto.
-        -- intros E1 _. inversion E1; subst. right. auto.
+        -- intros E1 E2. inversion E1; subst. right. split; [reflexivity|].
+           assert (Hec' : ec' = ec1) by (cbn [new_wseg ws_index_start] in E2; change (0 <? 0) with false in E2; inversion E2; reflexivity).
+           subst ec'.
+           destruct Hreal as [Hd|Hd].
+           ++ exists (e_disk ec). split; [rewrite Hd; apply HR|apply pfx_start; exact A1].
+           ++ exists (e_disk ec1). split; [exact Hd|apply pfx_end; exact A1].
     + pose proof (drel_cur _ _ (name_of si) (proj1 HR)) as K.
       destruct (lookup _ (dk_files (e_disk e))) as [f|], (lookup _ (dk_files (e_disk ec))) as [g|];
         [|destruct K|destruct K|intros E1 E2; inversion E1; inversion E2; subst; left; auto].
@@ -782,26 +769,31 @@ Proof.
       apply IH. exact HR.
 Qed.
 
-Definition open_failed (e1 ec1 : env) (res : open_res) (e' ec' : env) : Prop :=
-  e_fault e' = None /\ (exists x, res = OErr x) /\ exists dm, drel None (e_disk e') dm /\ pfx ec1 ec' dm.
+(* the outcome of an Open on which both runs agree: related, up to the garbage
+   collection at its end (which fails as a whole while deletion faults are armed) *)
+Definition open_same (ec0 : env) (e' ec' : env) : Prop := exists ns, Rd [] ns ec0 e' ec'.
 
-Lemma open_newtail_lock c nid segs garbage e1 ec1 res e' resc ec' : R None e1 ec1 ->
+Lemma open_newtail_lock c nid segs garbage e1 ec1 res e' resc ec' : R [] e1 ec1 ->
   open_newtail c nid segs garbage e1 = (res, e') -> open_newtail c nid segs garbage ec1 = (resc, ec') ->
-  (res = resc /\ R None e' ec') \/ open_failed e1 ec1 res e' ec'.
+  (res = resc /\ open_same ec1 e' ec') \/ open_failed e1 ec1 res e' ec'.
 Proof.
   intros HR. unfold open_newtail.
   match goal with |- context [io (ACommit ?ps) e1] =>
-    destruct (io_lock None (ACommit ps) e1 ec1 HR I) as (Ec & [(e2 & Er & HR2)|(e2 & Er & D & F)]); rewrite Ec, Er; cbn [negb];
+    destruct (io_lock [] (ACommit ps) e1 ec1 HR (conj I eq_refl)) as (Ec & [(e2 & Er & HR2 & _)|(e2 & Er & D & F & _)]); rewrite Ec, Er; cbn [negb];
     set (ec2 := io_env (ACommit ps) ec1) in * end.
   - destruct (seg_create _ e2) as [sw e3] eqn:Es. destruct (seg_create _ ec2) as [swc ec3] eqn:Esc.
-    destruct (seg_create_lock None _ e2 ec2 _ _ _ _ HR2 Es Esc) as (A1 & A2 & [(-> & HR3)|(-> & -> & D & F & _)]).
-    + destruct swc as [sw|]; intros E1 E2; inversion E1; inversion E2; subst; left; [|auto].
-      split; [reflexivity|]. apply (delete_files_lock None garbage e3 ec3 HR3).
-    + intros E1 E2. inversion E1; subst. right. split; [exact F|]. split; [eexists; reflexivity|].
-      exists (e_disk ec2). split; [rewrite D; apply HR2|].
-      inversion E2; subst. eapply pfx_more; [apply (pfx_end ec1 ec2); apply aext_io|].
-      eapply aext_trans; [exact A1|]. apply sh_delete_files. exact A2.
-  - intros E1 E2. inversion E1; subst. right. split; [exact F|]. split; [eexists; reflexivity|].
+    destruct (seg_create_lock [] _ e2 ec2 _ _ _ _ HR2 Es Esc) as (A1 & A2 & [(-> & HR3)|(-> & -> & F & Dc & Hreal)]).
+    + destruct swc as [sw|]; intros E1 E2; inversion E1; inversion E2; subst; left; [|split; [reflexivity|exists []; left; exact HR3]].
+      split; [reflexivity|]. exists garbage. apply (delete_files_Rd [] garbage e3 ec3 ec1 HR3).
+      eapply aext_trans; [apply aext_io|exact A1].
+    + intros E1 E2. inversion E1; subst. right. split; [eexists; reflexivity|].
+      assert (Ha3 : aext ec3 ec') by (inversion E2; subst; apply sh_delete_files; exact A2).
+      destruct Hreal as [Hd|Hd].
+      * exists (e_disk ec2). split; [rewrite Hd; apply HR2|].
+        eapply pfx_more; [apply (pfx_end ec1 ec2); apply aext_io|]. eapply aext_trans; [exact A1|exact Ha3].
+      * exists (e_disk ec3). split; [exact Hd|].
+        eapply pfx_more; [apply (pfx_end ec1 ec3); eapply aext_trans; [apply aext_io|exact A1]|exact Ha3].
+  - intros E1 E2. inversion E1; subst. right. split; [eexists; reflexivity|].
     exists (e_disk ec1). split; [rewrite D; apply HR|].
     apply pfx_start.
     destruct (seg_create _ ec2) as [swc ec3] eqn:Esc. pose proof (sh_seg_create _ _ _ _ (io_env_fault _ _) Esc) as H3.
@@ -825,46 +817,75 @@ Proof.
     eapply shok_trans; [exact H13|]. apply sh_delete_files. apply H3.
 Qed.
 
-Lemma open_rest_lock c e0 ec0 res e' resc ec' : R None e0 ec0 ->
+Lemma open_same_shift ec0 ec1 e' ec' : aext ec0 ec1 -> open_same ec1 e' ec' -> open_same ec0 e' ec'.
+Proof. intros Ha (ns & H). exists ns. eapply Rd_shift; eauto. Qed.
+
+Lemma open_failed_shift e0 e1 ec0 ec1 res e' ec' : aext ec0 ec1 -> open_failed e1 ec1 res e' ec' -> open_failed e0 ec0 res e' ec'.
+Proof. intros Ha (A & dm & B & C). split; [exact A|]. exists dm. split; [exact B|eapply pfx_shift; eauto]. Qed.
+
+Lemma open_rest_lock c e0 ec0 res e' resc ec' : R [] e0 ec0 ->
   open_rest c e0 = (res, e') -> open_rest c ec0 = (resc, ec') ->
-  (res = resc /\ R None e' ec') \/ open_failed e0 ec0 res e' ec'.
+  (res = resc /\ open_same ec0 e' ec') \/ open_failed e0 ec0 res e' ec'.
 Proof.
   intros HR. unfold open_rest. pose proof HR as ((Hl & Hm & _) & Hf). rewrite Hm, (lrel_keys _ _ Hl).
   set (ps := match dk_meta (e_disk ec0) with Some ps => ps | None => {| ps_next_id := 0; ps_segs := [] |} end).
   destruct (open_segs c (ps_segs ps) [] e0) as [[[r segs] tail] e1] eqn:Eo.
   destruct (open_segs c (ps_segs ps) [] ec0) as [[[rc segsc] tailc] ec1] eqn:Eoc.
   pose proof (sh_open_segs _ _ _ _ _ _ _ _ Hf Eoc) as H1.
-  destruct (open_segs_lock c _ _ _ _ _ _ _ _ _ _ _ _ HR Eo Eoc) as [(-> & -> & -> & HR1)|(F & -> & D)].
-  - destruct rc; [|intros E1 E2; inversion E1; inversion E2; subst; left; split; [reflexivity|exact HR1] ..].
+  destruct (open_segs_lock c _ _ _ _ _ _ _ _ _ _ _ _ HR Eo Eoc) as [(-> & -> & -> & HR1)|(-> & dm & D1 & D2)].
+  - destruct rc; [|intros E1 E2; inversion E1; inversion E2; subst; left; split; [reflexivity|exists []; left; exact HR1] ..].
     destruct tailc as [tw|].
-    + intros E1 E2; inversion E1; inversion E2; subst. left. split; [reflexivity|]. apply (delete_files_lock None _ e1 ec1 HR1).
-    + intros E1 E2. destruct (open_newtail_lock c _ _ _ e1 ec1 _ _ _ _ HR1 E1 E2) as [G|(G1 & G2 & dm & G3 & G4)]; [left; exact G|right].
-      split; [exact G1|]. split; [exact G2|]. exists dm. split; [exact G3|]. eapply pfx_shift; [apply H1|exact G4].
-  - intros E1 E2. inversion E1; subst. right. split; [exact F|]. split; [eexists; reflexivity|].
-    exists (e_disk ec0). split; [rewrite D; apply HR|]. apply pfx_start.
+    + intros E1 E2; inversion E1; inversion E2; subst. left. split; [reflexivity|].
+      eexists. apply (delete_files_Rd [] _ e1 ec1 ec0 HR1). apply H1.
+    + intros E1 E2. destruct (open_newtail_lock c _ _ _ e1 ec1 _ _ _ _ HR1 E1 E2) as [(G1 & G2)|G].
+      * left. split; [exact G1|]. eapply open_same_shift; [apply H1|exact G2].
+      * right. eapply open_failed_shift; [apply H1|exact G].
+  - intros E1 E2. inversion E1; subst. right. split; [eexists; reflexivity|].
+    exists dm. split; [exact D1|]. eapply pfx_more; [exact D2|].
     pose proof (sh_open_rest c ec0 resc ec' Hf) as Hsh. unfold open_rest in Hsh. fold ps in Hsh. rewrite Eoc in Hsh.
-    apply Hsh. exact E2.
+    (* the shadow run continues after open_segs *)
+    destruct rc; try (inversion E2; subst; apply aext_refl).
+    destruct tailc as [tw|].
+    + inversion E2; subst. apply sh_delete_files. apply H1.
+    + unfold open_newtail in E2. rewrite (io_ok _ _ (proj2 H1)) in E2. cbn [negb] in E2.
+      destruct (seg_create _ _) as [sw ec3] eqn:Es. pose proof (sh_seg_create _ _ _ _ (io_env_fault _ _) Es) as H3.
+      destruct sw; inversion E2; subst.
+      * eapply aext_trans; [apply aext_io|]. eapply aext_trans; [apply H3|]. apply sh_delete_files. apply H3.
+      * eapply aext_trans; [apply aext_io|apply H3].
 Qed.
 
 Lemma sh_open_wal c ec res ec' : e_fault ec = None -> open_wal c ec = (res, ec') -> shok ec ec'.
 Proof.
   intros Hf. rewrite open_wal_unfold. destruct (_ && _); [intros E; inversion E; subst; apply shok_refl; exact Hf|].
-  destruct (dk_inited (e_disk ec)); cbn [negb]; [apply sh_open_rest; exact Hf|].
-  rewrite (io_ok _ _ Hf). cbn [negb]. intros E. eapply shok_trans; [apply shok_io|]. eapply sh_open_rest; [|exact E]. reflexivity.
+  destruct (dk_inited (e_disk ec)); cbn [negb].
+  - unfold armed. rewrite Hf. cbn [andb]. apply sh_open_rest; exact Hf.
+  - rewrite (io_ok _ _ Hf). cbn [negb]. change (armed (io_env AInitMeta ec) && fx_list (e_fx (io_env AInitMeta ec))) with false. cbv iota.
+    intros E. eapply shok_trans; [apply shok_io|]. eapply sh_open_rest; [|exact E]. reflexivity.
 Qed.
 
-Lemma open_wal_lock c e ec res e' resc ec' : R None e ec ->
+Lemma open_wal_lock c e ec res e' resc ec' : R [] e ec ->
   open_wal c e = (res, e') -> open_wal c ec = (resc, ec') ->
-  (res = resc /\ R None e' ec') \/ open_failed e ec res e' ec'.
+  (res = resc /\ open_same ec e' ec') \/ open_failed e ec res e' ec'.
 Proof.
-  intros HR. rewrite !open_wal_unfold. destruct (_ && _); [intros E1 E2; inversion E1; inversion E2; subst; left; auto|].
+  intros HR. rewrite !open_wal_unfold. destruct (_ && _); [intros E1 E2; inversion E1; inversion E2; subst; left; split; [reflexivity|exists []; left; exact HR]|].
   pose proof HR as ((_ & _ & _ & Hin & _) & Hf). rewrite Hin.
+  assert (Hlist : forall e0 ec0, R [] e0 ec0 -> aext ec ec0 ->
+            (if armed e0 && fx_list (e_fx e0) then (OErr RErrIO, list_failed e0) else open_rest c e0) = (res, e') ->
+            open_rest c ec0 = (resc, ec') ->
+            (res = resc /\ open_same ec e' ec') \/ open_failed e ec res e' ec').
+  { intros e0 ec0 HR0 Ha E1 E2. destruct (armed e0 && fx_list (e_fx e0)).
+    - inversion E1; subst. right. split; [eexists; reflexivity|]. exists (e_disk ec0). split; [apply HR0|].
+      eapply pfx_shift; [exact Ha|]. apply pfx_start. eapply sh_open_rest; [apply HR0|exact E2].
+    - destruct (open_rest_lock c _ _ _ _ _ _ HR0 E1 E2) as [(G1 & G2)|G].
+      + left. split; [exact G1|]. eapply open_same_shift; eauto.
+      + right. eapply open_failed_shift; eauto. }
   destruct (dk_inited (e_disk ec)).
-  - cbn [negb]. apply open_rest_lock. exact HR.
-  - destruct (io_lock None AInitMeta e ec HR I) as (Ec & [(e1 & Er & HR1)|(e1 & Er & D & F)]); rewrite Ec, Er; cbn [negb].
-    + intros E1 E2. destruct (open_rest_lock c _ _ _ _ _ _ HR1 E1 E2) as [G|(G1 & G2 & dm & G3 & G4)]; [left; exact G|right].
-      split; [exact G1|]. split; [exact G2|]. exists dm. split; [exact G3|]. eapply pfx_shift; [apply aext_io|exact G4].
-    + intros E1 E2. inversion E1; subst. right. split; [exact F|]. split; [eexists; reflexivity|].
+  - cbn [negb]. unfold armed at 2. rewrite Hf. cbn [andb]. apply (Hlist e ec HR (aext_refl ec)).
+  - destruct (io_lock [] AInitMeta e ec HR (conj I eq_refl)) as (Ec & [(e1 & Er & HR1 & _)|(e1 & Er & D & F & _)]); rewrite Ec, Er; cbn [negb].
+    + change (armed (io_env AInitMeta ec) && fx_list (e_fx (io_env AInitMeta ec))) with false. cbv iota.
+      apply (Hlist e1 _ HR1 (aext_io _ _)).
+    + change (armed (io_env AInitMeta ec) && fx_list (e_fx (io_env AInitMeta ec))) with false. cbv iota.
+      intros E1 E2. inversion E1; subst. right. split; [eexists; reflexivity|].
       exists (e_disk ec). split; [rewrite D; apply HR|]. apply pfx_start.
       eapply aext_trans; [apply aext_io|]. eapply sh_open_rest; [|exact E2]. reflexivity.
 Qed.
